@@ -155,6 +155,12 @@ C09_DryRejectsIffReal_(f) ==
   (IsOp("mkdir") /\ Last.dry) =>
      LET real == MkdirOp(pre, f, Last.exts, Target, Last.route, FALSE) IN
      (res.k = "invalid") <=> (real.res = "invalid")
+\* ... read from the other side (trace validation: res is what the REAL run returned): a real run rejects a tree
+\* because of its names only if the dry run of the same call does
+C09_RealRejectsIffDry_(f) ==
+  (IsOp("mkdir") /\ ~Last.dry) =>
+     LET dry == MkdirOp(pre, f, Last.exts, Target, Last.route, TRUE) IN
+     (res.k = "invalid") <=> (dry.res = "invalid")
 C09_DryIsReportOrInvalid == (IsOp("mkdir") /\ Last.dry) => res.k \in {"report", "invalid"}
 \* the counts of the report are the kinds a real Mkdir creates on a fresh target
 Fresh == [dirs |-> TargetPrefixes, files |-> {}]
